@@ -30,8 +30,9 @@ LEVEL_TEXT = (
     "of the solver's last path segment (and a closed form at LO); dump/load of blocks must reproduce the text"
 )
 LEVEL_NOTE = (
-    "decides the property on the lattice only (7 evolution grids, 5 theory settings, 3 target grids, 1-3 members, "
-    "3-4 point x grids); operators synthetic except for the solved cases; xif=1; trusted: the 60-line parser, numpy, mpmath"
+    "decides the property on the lattice only (9 evolution grids, 8 theory settings incl. xif=2 and QED slices, 4 target grids, 1-3 members, "
+    "3-4 point x grids, caller info_update / directory path slices, a pure dump/load family); operators synthetic except for the solved cases; "
+    "interpolation degree 1; trusted: the 60-line parser, numpy, mpmath"
 )
 FLOOR_NONTRIVIAL = 20
 
@@ -43,6 +44,11 @@ GRIDS = {
     "sorted-2nf": [[3.0, 4], [100.0, 5]],
     "forced-nf": [[10.0, 4], [3.0, 3]],  # fewer flavours than the matching scales would give by default
     "decimals": [[1.7321, 3], [1.4142, 3], [31.6228, 5], [7.0711, 5]],
+    # scales that are not multiples of 1e-4 (mu = sqrt(Q2) of a Q2-style card): the 4-decimal QMin/QMax of the
+    # info file cannot equal the 7-digit Q nodes of the data files.  "irrational": lowest scale rounds UP, highest DOWN
+    # (round-to-nearest leaves both outside the range); "irrational-ok": lowest rounds DOWN, highest UP
+    "irrational": [[200.0**0.5, 5], [3.0**0.5, 3], [7.0**0.5, 4]],
+    "irrational-ok": [[1000.0**0.5, 5], [2.0**0.5, 3], [8.0**0.5, 4]],
 }
 THEORIES = {
     "pole-lo": dict(order=[1, 0]),
@@ -50,6 +56,25 @@ THEORIES = {
     "pole-nnlo": dict(order=[3, 0]),
     "msbar-nlo": dict(order=[2, 0], scheme="MSBAR", mass_refs=[2.0, 4.5, 173.07]),
     "msbar-ref-nlo": dict(order=[2, 0], scheme="MSBAR", masses=[1.8, 4.2, 173.07], mass_refs=[2.5, 5.0, 173.07]),
+    # scale variations: the info file lists alpha_s at Q (LHAPDF meaning), the solver's expansion parameter is taken at
+    # xif^2 Q^2 -> compared with the solver's coupling OBJECT evaluated at the listed scales (and the LO closed form)
+    "pole-lo-xif2-expanded": dict(order=[1, 0], xif=2.0, sv="expanded"),
+    "pole-nlo-xif2-exponentiated": dict(order=[2, 0], xif=2.0, sv="exponentiated"),
+    # coupled alpha_s / alpha_em running (distinct branch of the coupling)
+    "pole-nlo-qed": dict(order=[2, 1]),
+}
+XIF_THEORIES = ("pole-lo-xif2-expanded", "pole-nlo-xif2-exponentiated")
+# what a caller may pass as info_update: every entry that the statement ties to the written data is wrong on purpose
+INFO_UPDATE = {
+    "SetDesc": "c45 caller text",
+    "NumMembers": 99,
+    "XMin": 0.5,
+    "XMax": 0.6,
+    "QMin": 0.1,
+    "QMax": 12345.0,
+    "Flavors": [1, 2],
+    "AlphaS_Qs": [1.0],
+    "AlphaS_Vals": [0.5],
 }
 XGRIDS = {3: [0.01, 0.1, 1.0], 4: [0.001, 0.01, 0.3, 1.0]}
 INIT = [1.65, 4]
@@ -60,12 +85,19 @@ def _target(kind, xg):
         return None
     if kind == "nodes":
         return list(xg[1:])
+    if kind == "interior":  # both ends differ from the card's grid (2 points = the smallest grid accepted)
+        return [xg[1], math.sqrt(xg[1] * xg[2])]
     if kind == "mid":
         out = []
         for a, b in zip(xg[1:], xg[2:]):
             out += [a, math.sqrt(a * b)]
         return out + [xg[-1]]
     raise ValueError(kind)
+
+
+def _half_unit7(v):
+    """Half a unit of the 7th significant digit of v (nodes are printed with %.6e)."""
+    return 0.5 * 10.0 ** (math.floor(math.log10(abs(v))) - 6) * (1.0 + 1e-9) if v else 0.0
 
 
 def _close(a, b, rel, ab=0.0):
@@ -80,8 +112,12 @@ def _run_export(case, th, opc, pdfs, name, eko_path, solve, target):
     kw = dict(install=case["install"], name=name)
     if solve:
         kw["store_path"] = eko_path
+    elif case.get("path_dir"):
+        kw["path"] = pathlib.Path(eko_path).parent  # a directory: the archive is <dir>/eko.tar
     else:
         kw["path"] = eko_path
+    if case.get("info_update"):
+        kw["info_update"] = {k: (list(v) if isinstance(v, list) else v) for k, v in INFO_UPDATE.items()}
     if target is None:
         evol_pdf.evolve_pdfs(pdfs, th, opc, **kw)
         return "none", []
@@ -107,12 +143,163 @@ def _run_export(case, th, opc, pdfs, name, eko_path, solve, target):
     raise RuntimeError("no argument type accepted: " + " | ".join(errors))
 
 
+PID_SETS = {"three": [-2, 21, 4], "one": [21], "all": None}
+HEADS = {"default": None, "empty-list": [], "custom": "custom"}
+
+
+def _raw_blocks(member, pids):
+    """Two in-memory blocks (2 and 3 scales) of numbers that are NOT multiples of the printed units."""
+    out = []
+    for b, (xs, mu2s) in enumerate(
+        (([1e-3 / 3.0, 0.1 / 7.0, 2.0 / 3.0, 1.0], [3.0, 200.0 / 9.0]), ([1e-5 * math.pi, 0.5, 1.0], [200.0 / 9.0, 1e3 / 3.0, 1e8 / 7.0]))
+    ):
+        rows = []
+        for ix, x in enumerate(xs):
+            for iq, mu2 in enumerate(mu2s):
+                row = []
+                for ip, pid in enumerate(pids):
+                    k = 1 + ip + 3 * iq + 7 * ix + 11 * b + 13 * member
+                    v = math.sin(1.3 * k) * 10.0 ** ((k * 5) % 23 - 11) / 3.0
+                    if k % 9 == 0:
+                        v = 0.0
+                    row.append(v)
+                rows.append(row)
+        out.append(dict(xgrid=np.array(xs), mu2grid=list(mu2s), pids=np.array(pids), data=np.array(rows)))
+    return out
+
+
+def _evaluate_dumpload(case):
+    """export.dump_set / dump_blocks / dump_info of un-rounded in-memory data, re-read by ekobox's loader and by the
+    independent parser: everything must come back to the printed precision (half a unit of the last printed digit)."""
+    from ekobox.genpdf import export, load
+
+    res = Result()
+    where = f"case={case}"
+    pids = PID_SETS[case["pids"]] or list(L.PIDS)
+    nmem = case["members"]
+    d = cards.scratch_path("c45").with_suffix("")
+    d.mkdir(parents=True)
+    name = "c45raw"
+    cwd = os.getcwd()
+    try:
+        members = [_raw_blocks(m, pids) for m in range(nmem)]
+        heads = HEADS[case["head"]]
+        if heads == "custom":
+            heads = [f"PdfType: {'central' if m == 0 else 'error'} # c45 member {m}\n" for m in range(nmem)]  # one line: the loader's head is the first line
+        info = {"SetDesc": "c45 raw", "NumMembers": nmem, "Flavors": [int(p) for p in pids], "XMin": 1e-3 / 3.0, "AlphaS_Vals": [0.1 / 3.0, 0.2]}
+        os.chdir(d)
+        try:
+            export.dump_set(name, info, members, pdf_type_list=heads)
+            single = export.dump_info(d / "single" / "other.info", info)  # explicit file name
+        except Exception as exc:  # noqa
+            res.outcome = f"raises:{type(exc).__name__}"
+            res.fail("dump_set/raises", f"{where}: {type(exc).__name__}: {str(exc)[:300]}")
+            return res
+        finally:
+            os.chdir(cwd)
+        setdir = d / name
+        files = sorted(p.name for p in setdir.iterdir())
+        expect_files = sorted([f"{name}.info"] + [f"{name}_{m:04d}.dat" for m in range(nmem)])
+        if files != expect_files:
+            res.fail("dump_set/files", f"{where}: files {files}, expected {expect_files}")
+            return res
+        L.fake_lhapdf(d)
+        worst = {"data": 0.0, "x": 0.0, "q": 0.0}
+
+        def units(got, ref, digits, what):
+            """|got-ref| in units of the last of `digits` printed significant digits of ref."""
+            if ref == 0:
+                return 0.0 if got == 0 else math.inf
+            u = abs(got - ref) / 10.0 ** (math.floor(math.log10(abs(ref))) - (digits - 1))
+            worst[what] = max(worst[what], u)
+            return u
+
+        for m, blocks in enumerate(members):
+            text = (setdir / f"{name}_{m:04d}.dat").read_text()
+            try:
+                header, pblocks = L.parse_dat(text)
+                head, lblocks = load.load_blocks_from_file(name, m)
+            except Exception as exc:  # noqa
+                res.fail("dumpload/unreadable", f"{where}: member {m}: {type(exc).__name__}: {str(exc)[:300]}")
+                continue
+            want_head = (heads[m] if heads else ("PdfType: central\n" if m == 0 else "PdfType: replica\n")).split("\n")[:-1] + ["Format: lhagrid1"]
+            if header != want_head:
+                res.fail(f"dumpload/header/head={case['head']}", f"{where}: member {m}: header lines {header}, expected {want_head}")
+            if head != text.split("\n")[0] + "\n":
+                res.fail("dumpload/loaded-head", f"{where}: member {m}: loader returns head {head!r}, file starts with {text[:40]!r}")
+            if len(pblocks) != len(blocks) or len(lblocks) != len(blocks):
+                res.fail("dumpload/blocks", f"{where}: member {m}: {len(blocks)} blocks written, {len(pblocks)} parsed, {len(lblocks)} loaded")
+                continue
+            for ib, (blk, pb, lb) in enumerate(zip(blocks, pblocks, lblocks)):
+                if [int(p) for p in lb["pids"]] != list(pids) or pb["pids"] != list(pids):
+                    res.fail("dumpload/pids", f"{where}: member {m} block {ib}: pids {list(lb['pids'])} / {pb['pids']}, written {pids}")
+                    continue
+                shape_ok = (
+                    np.asarray(lb["data"]).shape == blk["data"].shape
+                    and len(lb["xgrid"]) == len(blk["xgrid"]) == len(pb["x"])
+                    and len(lb["mu2grid"]) == len(blk["mu2grid"]) == len(pb["q"])
+                )
+                if not shape_ok:
+                    res.fail("dumpload/shape", f"{where}: member {m} block {ib}: loaded data {np.asarray(lb['data']).shape}, written {blk['data'].shape}")
+                    continue
+                bad = None
+                for got, ref in zip(lb["xgrid"], blk["xgrid"]):
+                    if units(float(got), float(ref), 7, "x") > 0.5 * (1 + 1e-6):
+                        bad = f"x node {got!r} vs {ref!r}"
+                for got, ref in zip(lb["mu2grid"], blk["mu2grid"]):
+                    if units(math.sqrt(got), math.sqrt(ref), 7, "q") > 0.5 * (1 + 1e-6):
+                        bad = f"mu2 node {got!r} vs {ref!r}"
+                for got, ref in zip(np.asarray(lb["data"]).ravel(), blk["data"].ravel()):
+                    if units(float(got), float(ref), 9, "data") > 0.5 * (1 + 1e-6):
+                        bad = f"value {got!r} vs {ref!r}"
+                if bad:
+                    res.fail("dumpload/not-preserved-to-printed-precision", f"{where}: member {m} block {ib}: {bad}")
+                # the loader and the independent parser read the same numbers
+                same = list(lb["xgrid"]) == pb["x"] and np.array_equal(np.asarray(lb["data"]), pb["data"].reshape(-1, len(pids)))
+                same = same and all(_close(a, b * b, 1e-15) for a, b in zip(lb["mu2grid"], pb["q"]))
+                if not same:
+                    res.fail("load/blocks-differ", f"{where}: member {m} block {ib}: load_blocks_from_file does not return the numbers in the file")
+            # second generation: dumping what was loaded reproduces the text
+            re = d / "redump" / f"{name}_{m:04d}.dat"
+            re.parent.mkdir(exist_ok=True)
+            try:
+                export.dump_blocks(re, m, lblocks, pdf_type=head)
+                if re.read_text() != text:
+                    res.fail("dump-load/not-reproduced", f"{where}: member {m}: dumping the loaded blocks does not reproduce the file")
+            except Exception as exc:  # noqa
+                res.fail("load/raises", f"{where}: member {m}: {type(exc).__name__}: {str(exc)[:300]}")
+        # info: both spellings of the target, read by the line parser and by the loader
+        try:
+            a = L.parse_info((setdir / f"{name}.info").read_text())
+            b = L.parse_info(pathlib.Path(single).read_text())
+            c = load.load_info_from_file(name)
+            if pathlib.Path(single) != d / "single" / "other.info":
+                res.fail("dump_info/target", f"{where}: dump_info wrote {single}")
+            if not (a == b == c == info):
+                res.fail("dump_info/not-preserved", f"{where}: info written {info}, read {a} / {b} / {c}")
+        except Exception as exc:  # noqa
+            res.fail("dump_info/unreadable", f"{where}: {type(exc).__name__}: {str(exc)[:300]}")
+        res.info = {
+            "max_dumpload_value_dev_in_units_of_last_printed_digit": worst["data"],
+            "max_dumpload_x_dev_in_units_of_last_printed_digit": worst["x"],
+            "max_dumpload_Q_dev_in_units_of_last_printed_digit": worst["q"],
+        }
+        res.outcome = f"dumpload:pids={case['pids']}:head={case['head']}:members={nmem}"
+        res.nontrivial = True
+        return res
+    finally:
+        os.chdir(cwd)
+        shutil.rmtree(d, ignore_errors=True)
+
+
 def evaluate(case):
     from eko import basis_rotation as br
     from eko.io.items import Operator
     from eko.io.struct import EKO
     from ekobox.genpdf import export, load
 
+    if case.get("kind") == "dumpload":
+        return _evaluate_dumpload(case)
     res = Result()
     if list(br.flavor_basis_pids) != L.PIDS:
         raise AssertionError("flavour order of the operator axes differs from the documented one")
@@ -135,6 +322,9 @@ def evaluate(case):
         except Exception as exc:  # noqa
             raise AssertionError(f"card of the lattice not accepted: {exc}")
         eko_path = d / "e.tar"
+        if case.get("path_dir"):
+            (d / "ekodir").mkdir()
+            eko_path = d / "ekodir" / "eko.tar"
         eps = [(float(mu) * float(mu), int(nf)) for mu, nf in mugrid]
         ops = {}
         if not case["solve"]:
@@ -291,6 +481,18 @@ def evaluate(case):
                     f"{where}: {axis}Min={lo!r} {axis}Max={hi!r} but the written {axis.lower()} grid "
                     f"({'target ' + used if target is not None and axis == 'X' else 'as on the card'}) spans [{wlo}, {whi}]",
                 )
+            # "bound": the range must contain the written nodes (as printed, i.e. up to half a unit of their 7th digit)
+            if ok:
+                sides = []
+                if float(lo) > wlo + _half_unit7(wlo):
+                    sides.append(f"{axis}Min={lo!r} above the lowest written node {wlo!r}")
+                if float(hi) < whi - _half_unit7(whi):
+                    sides.append(f"{axis}Max={hi!r} below the highest written node {whi!r}")
+                if sides:
+                    res.fail(
+                        f"info/{axis}-range/not-bounding",
+                        f"{where}: the [{axis}Min, {axis}Max] of the info file does not contain the {axis.lower()} grid of the data files: " + "; ".join(sides),
+                    )
         if sorted(inf.get("Flavors") or []) != sorted(pid_sets[0]):
             res.fail("info/Flavors", f"{where}: Flavors={inf.get('Flavors')} data columns={pid_sets[0]}")
         if inf.get("NumMembers") != len(pdfs):
@@ -304,7 +506,12 @@ def evaluate(case):
             else:
                 points = [(mu2, nf) for nf, mu2s in blocks_exp for mu2 in mu2s]
                 try:
-                    evol = L.evolution_alphas(eko_path, points)
+                    if case["theory"] in XIF_THEORIES:
+                        # muF != muR: "at the listed scales" = the solver's coupling object evaluated at Q (not at xif*Q)
+                        evol = L.coupling_at_listed(eko_path, points)
+                        alphas_note = ":alphas-at-Q-not-at-xif*Q"
+                    else:
+                        evol = L.evolution_alphas(eko_path, points)
                 except Exception as exc:  # noqa
                     # the solver itself cannot set up its coupling for this card (no EKO could be computed
                     # from it): nothing to compare the table with
@@ -320,7 +527,7 @@ def evaluate(case):
                         )
                         break
                 info["max_alphas_vs_evolution_rel"] = worst
-                if case["theory"] == "pole-lo":
+                if case["theory"] in ("pole-lo", "pole-lo-xif2-expanded"):
                     walls = [2.0**2, 4.5**2, 173.07**2]
                     worst = 0.0
                     for (mu2, nf), got in zip(points, av):
@@ -340,22 +547,71 @@ def evaluate(case):
         shutil.rmtree(d, ignore_errors=True)
 
 
+BASE_GRIDS = ["one", "unsorted-1nf", "unsorted-3nf", "threshold-dup", "sorted-2nf", "forced-nf"]
+BASE_THEORIES = ["pole-lo", "pole-nlo", "msbar-nlo", "msbar-ref-nlo"]
+
+
 def _cases(thorough):
     cases = []
-    grids = list(GRIDS) if thorough else ["one", "unsorted-1nf", "unsorted-3nf", "threshold-dup", "sorted-2nf", "forced-nf"]
-    theories = list(THEORIES) if thorough else ["pole-lo", "pole-nlo", "msbar-nlo", "msbar-ref-nlo"]
+    seen = set()
+
+    def add(**kw):
+        key = repr(sorted(kw.items()))
+        if key not in seen:
+            seen.add(key)
+            cases.append(kw)
+
+    def export(g, t, tg, mem, inst, nx=3, kind="dense", **extra):
+        add(grid=g, theory=t, target=tg, members=mem, install=inst, nx=nx, opkind=kind, solve=False, **extra)
+
+    grids = BASE_GRIDS + ["decimals"] if thorough else BASE_GRIDS
+    theories = BASE_THEORIES + ["pole-nnlo"] if thorough else BASE_THEORIES
     members = [1, 2, 3] if thorough else [1, 3]
+    ops = [(3, "dense"), (4, "evol")] if thorough else [(3, "dense")]
+    # (1) the round-1 product (unchanged)
     for g in grids:
         for t in theories:
             for tg in ("none", "nodes", "mid"):
                 for mem in members:
                     for inst in (False, True):
-                        for nx, kind in ([(3, "dense"), (4, "evol")] if thorough else [(3, "dense")]):
-                            cases.append(dict(grid=g, theory=t, target=tg, members=mem, install=inst, nx=nx, opkind=kind, solve=False))
+                        for nx, kind in ops:
+                            export(g, t, tg, mem, inst, nx, kind)
+    # (2) scales that need rounding in the info file: grids x theories (target none, 1 member; thorough: all targets/ops)
+    for g in ("irrational", "irrational-ok"):
+        for t in theories:
+            for tg in ("none", "nodes", "mid", "interior") if thorough else ("none",):
+                for nx, kind in ops:
+                    export(g, t, tg, 1, False, nx, kind)
+    # (3) a target grid both of whose ends differ from the card's grid: grids x theories (thorough: x members x install x ops)
+    for g in grids:
+        for t in theories:
+            for mem in members if thorough else [1]:
+                for inst in (False, True) if thorough else (False,):
+                    for nx, kind in ops:
+                        export(g, t, "interior", mem, inst, nx, kind)
+    # (4) muF != muR and QED couplings: grids (quick: the two with forced / several nf) x target {none, (interior)}
+    for t in XIF_THEORIES + ("pole-nlo-qed",):
+        for g in (BASE_GRIDS + ["irrational-ok"]) if thorough else ("unsorted-3nf", "forced-nf"):
+            for tg in ("none", "interior") if thorough else ("none",):
+                export(g, t, tg, 1, False)
+    # (5) caller-supplied info_update contradicting the data; archive given as a directory
+    for g in BASE_GRIDS if thorough else ("unsorted-3nf", "one"):
+        for t in ("pole-nlo", "msbar-nlo") if thorough else ("pole-nlo",):
+            for tg in ("none", "interior", "mid"):
+                for mem in (1, 3):
+                    export(g, t, tg, mem, mem == 3, info_update=True)
+    for g in ("unsorted-3nf", "one"):
+        for inst in (False, True):
+            export(g, "pole-nlo", "none", 2, inst, path_dir=True)
     # really solved EKOs (LO, 3-point grid): evolve_pdfs computes and stores the operator itself
-    solved = [("unsorted-1nf", "none")] + ([("sorted-2nf", "none"), ("unsorted-1nf", "nodes")] if thorough else [])
+    solved = [("unsorted-1nf", "none")] + ([("sorted-2nf", "none"), ("unsorted-1nf", "nodes"), ("unsorted-1nf", "interior")] if thorough else [])
     for g, tg in solved:
-        cases.append(dict(grid=g, theory="pole-lo", target=tg, members=2, install=True, nx=3, opkind="-", solve=True))
+        add(grid=g, theory="pole-lo", target=tg, members=2, install=True, nx=3, opkind="-", solve=True)
+    # (6) the public writer/loader pair on un-rounded in-memory blocks (no EKO)
+    for pids in PID_SETS:
+        for head in HEADS:
+            for mem in (1, 2, 3):
+                add(kind="dumpload", pids=pids, head=head, members=mem)
     return cases
 
 
@@ -363,16 +619,27 @@ def run(ctx):
     cases = _cases(ctx.thorough())
     ctx.run_cases(cases, evaluate)
     ctx.rule = (
-        "complete product of evolution grids {single, unsorted same-nf, unsorted over 3 nf, duplicate Q on a threshold, "
+        "union of complete products. (1) evolution grids {single, unsorted same-nf, unsorted over 3 nf, duplicate Q on a threshold, "
         "sorted 2 nf, nf forced below the default, (thorough) many-decimal scales} x theory {POLE LO/NLO/(NNLO), MSBAR at m(m), MSBAR with reference "
         "scales different from the masses} x target grid {none, sub-set of nodes, nodes+log-midpoints} x members "
-        "{1,(2),3} x install {no, yes} (thorough: x {3-point dense, 4-point near-identity} operators); plus 1 (3) "
-        "cards solved by evolve_pdfs itself; every number of every written file compared; non-trivial = a set was written"
+        "{1,(2),3} x install {no, yes} (thorough: x {3-point dense, 4-point near-identity} operators); (2) two grids of irrational scales "
+        "(sqrt of integers; lowest rounds up/highest down at 4 decimals, and the reverse) x theories [thorough: x 4 targets x operators]; "
+        "(3) target grid 'interior' (2 points, both ends inside the card's grid) x grids x theories [thorough: x members x install x operators]; "
+        "(4) theories {LO xif=2 expanded, NLO xif=2 exponentiated, NLO QED} x 2 (thorough 7) grids; (5) caller info_update contradicting "
+        "the data (NumMembers, Flavors, XMin/XMax, QMin/QMax, AlphaS tables) x 2 (6) grids x 3 targets x members {1,3}, and the archive "
+        "given as a directory (4 cards); (6) export.dump_set/dump_info + load of un-rounded in-memory blocks: pids {3, 1, all 14} x member head "
+        "{default, empty list, custom list} x members {1,2,3}; plus 1 (4) cards solved by evolve_pdfs itself; "
+        "every number of every written file compared; non-trivial = a set was written"
     )
     ctx.assumptions += [
         "operators are synthetic tensors except in the solved cases; toy input PDFs with missing and negative flavours",
-        "xif = 1 (the info file's alpha_s(Q) is compared with the coupling at the target end of the last path segment)",
+        "xif = 1 except in family (4): there the info file's alpha_s is demanded at the listed Q (LHAPDF meaning), i.e. the solver's coupling "
+        "object evaluated at Q, not its expansion parameter a_s(xif^2 Q^2); for xif = 1 it is compared with the coupling at the target end of "
+        "the last path segment",
         "data tolerance 5 units of the 9th significant digit (print rounding reaches 0.5) + 1e-12 of the sum of moduli; x and Q nodes 1e-6 relative (7 digits); "
-        "QMin/QMax half a unit of the 4th decimal; alpha_s 1e-10 relative vs the solver's coupling, 1e-9 vs the LO closed form",
+        "QMin/QMax within half a unit of the 4th decimal of the extreme written nodes AND containing them (up to half a unit of the 7th digit "
+        "the nodes are printed with; same one-sided rule for XMin/XMax); alpha_s 1e-10 relative vs the solver's coupling, 1e-9 vs the LO closed form",
+        "pure dump/load: values, x and Q come back within half a unit of the last printed digit (9 / 7 / 7 digits), no further slack",
         "an explicit target grid is offered as list, then XGrid, then an iterable XGrid subclass; the first accepted is used",
+        "interpolation degree 1 only (the reference is piecewise-linear in ln x); other degrees are C43's subject",
     ]
